@@ -454,6 +454,14 @@ def partition(ctx, prog, R):
 
 # ------------------------------------------------------------------------------------------ old (input, output) pair
 
+def _agg_expr(F, st, du):
+    rv = st.rv or {}
+    if "agg" in rv and isinstance(rv["agg"], dict) and "adt" in rv["agg"]:
+        a = rv["agg"]
+        return ("agg", a["adt"].rsplit("::", 1)[-1] + "::" + a["variant"], tuple(expr(F, o, du) for o in rv["ops"]))
+    return ("?",)
+
+
 def pdom_pair(ctx, prog, R):
     for name, nin in (("with_old_input_output", 1), ("with_old_input_output2", 2)):
         F = ctx.need_fn(R, WO + name + "::{closure#0}")
@@ -462,20 +470,15 @@ def pdom_pair(ctx, prog, R):
         du = DefUse(F)
         c = F.cfg()
         fcall = [t for t in F.calls() if q.callee_is(t, "FnMut::call_mut")]
-        stores = []
-        for s in F.stmts():
-            if s.dst is None or s.dst.proj != ["deref"] or F.is_cleanup(s.bb):
-                continue
-            base = expr(F, Place({"local": s.dst.local, "proj": []}), du)
-            if base[0] == "field" and any("old_input" in f for f in base[2]):
-                stores.append(s)
+        # `*oi = Some(..)` through an alias of the captured variable, or `old_input = Some(..)` directly
+        stores = [s for s in upvar_stores(F, "old_input") if "use" in (s.rv or {}) or "agg" in (s.rv or {})]
         ctx.site(R, F, "f call %s; old_input stores %s" % ([t.bb for t in fcall], [s.bb for s in stores]))
         if len(fcall) != 1 or not stores:
             ctx.fail(R, "pair:%s" % name, "%s: the previous input is never stored: every round looks like an initial "
                      "round (full recomputation)" % name, fn=F)
             continue
         st = stores[0]
-        val = expr(F, st.rv["use"], du) if "use" in (st.rv or {}) else ("?",)
+        val = expr(F, st.rv["use"], du) if "use" in (st.rv or {}) else expr(F, st.dst, du) if st.dst.is_local() else _agg_expr(F, st, du)
         want_args = [("arg", 3)] if nin == 1 else None
         okv = val[0] == "agg" and val[1] == "Option::Some"
         if okv and nin == 1:
